@@ -11,7 +11,7 @@ cd $WT && git checkout -q --detach $(git -C /repo rev-parse HEAD) && git checkou
 OUT=$D/validation.txt; : > $OUT
 DEMO=$(ls $D/*.rs | head -1)
 T=tests/seed_${NAME}.rs
-FEAT=$(grep -ho -- '--features [A-Za-z0-9,_-]*' $D/README.md | head -1)
+FEAT=$(grep -ho -- '--features "\?[A-Za-z0-9,_-]*' $D/README.md | head -1 | tr -d '"')
 echo "demo=$DEMO features=$FEAT" >> $OUT
 cp $DEMO $T
 echo "== demo WITHOUT patch" >> $OUT
